@@ -634,6 +634,19 @@ def SubsOk (macros : List (String × MacroSig)) (sigs : List (String × SubSig))
   ∀ name sig ps body, lookupS name sigs = some sig → lookupS name subs = some (ps, body) →
     ∃ Γ0 Γb, wfEffect (subEnv macros sigs ps sig) Γ0 body = .ok Γb ∧ Sub Γb sig.locals
 
+/-- the specification-level `hex_set_usr_field` changes neither locals nor parameters and never hits a sort error -/
+theorem setUsrFieldIL_execOk {Δ : Locals} {σ : MState} {args : List ILPure} {vs : List Val}
+    (hW : WeakAgree Δ σ.locals) : ExecOk Δ σ (setUsrFieldIL σ args vs) := by
+  unfold setUsrFieldIL
+  split
+  · unfold writeUsr
+    split
+    · split
+      · exact ⟨hW, rfl⟩
+      · exact notSort_undef _
+    · exact notSort_undef _
+  · exact notSort_undef _
+
 theorem ExecOk.spec {Δ : Locals} {σ : MState} {r : Except Stuck MState} (h : ExecOk Δ σ r) :
     (∀ msg, r ≠ .error (.sort msg)) ∧
     (∀ σ', r = .ok σ' → WeakAgree Δ σ'.locals ∧ σ'.params = σ.params) := by
@@ -849,7 +862,11 @@ theorem exec_sound_aux (ms : MacroSem) (subs : SubEnv) (macros : List (String ×
               · cases hwf1
               · next hbad =>
                 cases hbody : lookupS (f.drop 4).toString subs with
-                | none => exact notSort_undef f
+                | none =>
+                  dsimp only
+                  split
+                  · exact setUsrFieldIL_execOk hW
+                  · exact notSort_undef f
                 | some pb =>
                   obtain ⟨ps, body⟩ := pb
                   dsimp only
